@@ -386,6 +386,8 @@ class SymExec:
         self.prod: Optional[ProdVal] = None
         self.module_env: Dict[str, Dict[str, Any]] = {}     # module name -> bindings made while executing its body
         self.yield_handlers: List[Tuple[Any, Any]] = []     # (generator frame, handler) of generators inlined at their consumer
+        self.heap: Dict[Any, Dict[str, Any]] = {}            # attributes stored on objects created on this path (by construction id)
+        self.created: set = set()                            # construction ids of the objects created on this path
 
     # ----------------------------------------------------------- path driver
     def run(self) -> List[Path]:
@@ -421,6 +423,8 @@ class SymExec:
         self.fn_stack = [self.fi.qual]
         self.prod = None
         self.yield_handlers = []
+        self.heap = {}
+        self.created = set()
 
     def _run_once(self, prefix) -> Path:
         self._reset(prefix)
@@ -655,6 +659,16 @@ class SymExec:
         elif isinstance(t, ast.Attribute):
             obj = self.ev(t.value, fr)
             val = self.ev(st.value, fr)
+            hk_ = self._heap_key(obj)
+            if hk_ is not None:
+                n_ev_ = len(self.events)
+                cur_ = self.attr(obj, t.attr, t, fr)
+                new_ = self.binop(op, cur_, val, st) if not (isinstance(cur_, ListVal) and isinstance(val, ListVal) and op == '+') else None
+                del self.events[n_ev_:]                 # the update is reported as one aug_attr event, below
+                if new_ is None:
+                    cur_.elts.extend(val.elts)
+                else:
+                    self.heap.setdefault(hk_, {})[t.attr] = new_
             self.emit('aug_attr', st, obj=obj, attr=t.attr, op=op, value=val)
         elif isinstance(t, ast.Subscript):
             obj = self.ev(t.value, fr)
@@ -1266,6 +1280,37 @@ class SymExec:
             if pat.name is not None:
                 self.store_name(pat.name, subj, fr, st)
             return True
+        if isinstance(pat, ast.MatchClass):
+            # case C(): / case C(attr=pattern): an isinstance test, then the attribute sub-patterns
+            ct = self.ev(pat.cls, fr)
+            isin = self.call(('ref', 'builtin', 'isinstance'), [subj, ct], [], pat, fr)
+            if not self.truth(isin, pat):
+                return False
+            if pat.patterns:
+                fct = freeze(ct)
+                margs = None
+                if isinstance(fct, tuple) and fct[:2] == ('ref', 'cls') and fct[2] in self.facts.classes:
+                    cv = self._class_attr(fct[2], '__match_args__', exact=True)
+                    if isinstance(cv, tuple) and cv[:1] == ('tuple',) and all(is_const(x) for x in cv[1:]):
+                        margs = [x[1] for x in cv[1:]]
+                    elif any(self.facts.cls(q).is_dataclass for q in self.facts.mro(fct[2]) if q in self.facts.classes):
+                        margs = [f_[0] for f_ in self.facts.all_fields(fct[2], ctor=True)]
+                if margs is None and len(pat.patterns) == 1 and isinstance(fct, tuple) and fct[:2] == ('ref', 'builtin') \
+                        and fct[2] in ('str', 'int', 'float', 'bool', 'list', 'dict', 'tuple', 'set', 'frozenset', 'bytes'):
+                    if not self._match_pattern(pat.patterns[0], subj, fr, st):      # case str(x): binds the subject itself
+                        return False
+                elif margs is None or len(pat.patterns) > len(margs):
+                    raise Unrecognised('positional class pattern for %s in %s' % (show(fct), fr.qual))
+                else:
+                    for nm, sp in zip(margs, pat.patterns):
+                        if not self._match_pattern(sp, self.attr(subj, nm, pat, fr), fr, st):
+                            return False
+            for nm, sp in zip(pat.kwd_attrs, pat.kwd_patterns):
+                if not self._match_pattern(sp, self.attr(subj, nm, pat, fr), fr, st):
+                    return False
+            return True
+        if isinstance(pat, ast.MatchMapping):
+            raise Unrecognised('mapping pattern in %s' % fr.qual)
         if isinstance(pat, ast.MatchSequence):
             spine = None
             if isinstance(subj, tuple) and subj[:1] == ('tuple',) and not any(isinstance(x, tuple) and x[:1] == ('star',) for x in subj[1:]):
@@ -1297,29 +1342,45 @@ class SymExec:
                 # the corresponding parts
                 if self.choose(2, 'match-seq') == 1:
                     return False
-                def bind(q_, sv):
-                    # the whole pattern is taken to match: captures get their parts, literal sub-patterns decide nothing more
+                def bind(q_, sv) -> bool:
+                    # the shape is taken to match: captures get their parts, literal sub-patterns decide nothing more, class
+                    # sub-patterns are isinstance tests of their part
                     if isinstance(q_, ast.MatchAs):
-                        if q_.pattern is not None:
-                            bind(q_.pattern, sv)
+                        if q_.pattern is not None and not bind(q_.pattern, sv):
+                            return False
                         if q_.name is not None:
                             self.store_name(q_.name, sv, fr, st)
-                    elif isinstance(q_, ast.MatchSequence):
+                        return True
+                    if isinstance(q_, ast.MatchSequence):
                         for j_, r_ in enumerate(q_.patterns):
                             if isinstance(r_, ast.MatchStar):
                                 if r_.name is not None:
                                     self.store_name(r_.name, ('unpack*', freeze(sv), j_), fr, st)
-                            else:
-                                bind(r_, ('unpack', freeze(sv), j_))
-                    elif isinstance(q_, ast.MatchOr):
+                            elif not bind(r_, ('unpack', freeze(sv), j_)):
+                                return False
+                        return True
+                    if isinstance(q_, ast.MatchClass):
+                        return self._match_pattern(q_, sv, fr, st)
+                    if isinstance(q_, ast.MatchOr):
                         if any(isinstance(x, (ast.MatchAs, ast.MatchSequence)) and not (isinstance(x, ast.MatchAs) and x.name is None and x.pattern is None)
                                for x in q_.patterns):
                             raise Unrecognised('or-pattern with captures on a subject of unknown shape in %s' % fr.qual)
-                    elif not isinstance(q_, (ast.MatchValue, ast.MatchSingleton)):
-                        raise Unrecognised('match pattern %s on a subject of unknown shape in %s' % (type(q_).__name__, fr.qual))
-                bind(pat, subj)
-                return True
+                        return True
+                    if isinstance(q_, (ast.MatchValue, ast.MatchSingleton)):
+                        return True
+                    raise Unrecognised('match pattern %s on a subject of unknown shape in %s' % (type(q_).__name__, fr.qual))
+                return bind(pat, subj)
         raise Unrecognised('match pattern %s in %s' % (type(pat).__name__, fr.qual))
+
+    def _heap_key(self, obj):
+        """Identity of an object that was created on the path being followed (constructor call), else None."""
+        k = None
+        if isinstance(obj, tuple):
+            if obj[:1] == ('new',) and len(obj) > 3 and isinstance(obj[3], int):
+                k = obj[3]
+            elif obj[:1] == ('obj',) and len(obj) > 2 and isinstance(obj[2], int):
+                k = obj[2]
+        return k if k in self.created else None
 
     # ----------------------------------------------------------- assignments
     def store_name(self, name, v, fr, node):
@@ -1338,6 +1399,9 @@ class SymExec:
                 vs = list(fv.elts)
             elif isinstance(fv, tuple) and fv and fv[0] == 'tuple' and len(fv) - 1 == len(target.elts):
                 vs = list(fv[1:])
+            if isinstance(fv, tuple) and fv[:1] == ('new',) and len(fv) > 2 and self._namedtuple_fields(fv[1]) is not None \
+                    and len(fv[2]) == len(target.elts) and not any(isinstance(t, ast.Starred) for t in target.elts):
+                vs = [v_ for _, v_ in fv[2]]            # a NamedTuple unpacks to its fields in declaration order
             stars_ = [i for i, t in enumerate(target.elts) if isinstance(t, ast.Starred)]
             spine_ = list(fv.elts) if isinstance(fv, ListVal) and fv.concrete() else (
                 list(fv[1:]) if isinstance(fv, tuple) and fv[:1] == ('tuple',) and not any(isinstance(x, tuple) and x[:1] == ('star',) for x in fv[1:]) else None)
@@ -1360,6 +1424,9 @@ class SymExec:
         elif isinstance(target, ast.Attribute):
             obj = self.ev(target.value, fr)
             self.emit('store_attr', node, obj=obj, attr=target.attr, value=v)
+            hk_ = self._heap_key(obj)
+            if hk_ is not None:
+                self.heap.setdefault(hk_, {})[target.attr] = v          # later reads of the attribute see this value
             fo_ = freeze(obj)
             if target.attr == '__doc__' and fr.module.name in self.module_env and isinstance(fo_, tuple) and fo_[:1] == ('ref',) \
                     and fo_[1] in ('fnraw', 'func'):
@@ -1377,6 +1444,10 @@ class SymExec:
             if m_ is not None:
                 self._inline_call(m_, [obj, idx, v], [], node, ('attr', freeze(obj), '__setitem__'))
                 return
+            if isinstance(obj, tuple) and obj[:2] == ('new', 'collections.ChainMap') and self._heap_key(obj) is not None:
+                maps_ = self.heap.get(self._heap_key(obj), {}).get('maps')
+                if isinstance(maps_, ListVal) and maps_.elts and not (isinstance(maps_.elts[0], tuple) and maps_.elts[0][:1] == ('star',)):
+                    obj = maps_.elts[0]              # ChainMap.__setitem__ writes into the first mapping
             if isinstance(obj, GlobalsVal):
                 if not (is_const(freeze(idx)) and isinstance(freeze(idx)[1], str)):
                     raise Unrecognised('globals()[%s] = ...: the name is not a constant' % show(idx))
@@ -1486,6 +1557,23 @@ class SymExec:
                 out.append((st.targets[0].id, st.value.value))
         return out
 
+    def _field_default(self, qual: str, name: str, fr):
+        """Value of a dataclass field default: a constant, or a fresh list / dict from default_factory; None if not understood."""
+        for n_, _ann, d_, q_ in self.facts.all_fields(qual, ctor=True):
+            if n_ != name or d_ is None:
+                continue
+            if isinstance(d_, ast.Constant):
+                return ('const', d_.value)
+            if isinstance(d_, ast.Call) and isinstance(d_.func, (ast.Name, ast.Attribute)) and (
+                    (isinstance(d_.func, ast.Name) and d_.func.id == 'field') or (isinstance(d_.func, ast.Attribute) and d_.func.attr == 'field')):
+                for kw in d_.keywords:
+                    if kw.arg == 'default' and isinstance(kw.value, ast.Constant):
+                        return ('const', kw.value.value)
+                    if kw.arg == 'default_factory' and isinstance(kw.value, ast.Name) and kw.value.id in ('list', 'dict'):
+                        return ListVal([], self.fresh()) if kw.value.id == 'list' else DictVal([], self.fresh())
+            return None
+        return None
+
     def _namedtuple_fields(self, cq: str):
         """[(field, default node or None)] of a typing.NamedTuple class of the package, else None."""
         ci = self.facts.classes.get(cq)
@@ -1510,20 +1598,45 @@ class SymExec:
                 or self.fi.qual.endswith('.<module>') or mod in self.module_env:
             return None
         node0 = m.assigns[var][0]
-        if isinstance(node0, (ast.Constant, ast.Tuple, ast.Dict, ast.List, ast.Set, ast.Lambda, ast.Name, ast.Attribute)):
+        if isinstance(node0, (ast.Constant, ast.Dict, ast.List, ast.Set, ast.Lambda, ast.Name, ast.Attribute)):
             return None                     # displays and aliases are handled elsewhere
         if any(isinstance(n, ast.Global) and var in n.names for n in ast.walk(m.tree)):
             return None
         v = exec_module_body(self.facts, m).get(var)
         fv = freeze(v) if not isinstance(v, (ListVal, DictVal, Closure)) else None
 
+        def frozen_record(qual):
+            if self._namedtuple_fields(qual) is not None:
+                return True
+            ci_ = self.facts.classes.get(qual)
+            if ci_ is None or not ci_.is_dataclass:
+                return False
+            return any(isinstance(d, ast.Call) and any(k.arg == 'frozen' and isinstance(k.value, ast.Constant) and k.value.value is True
+                                                       for k in d.keywords) for d in ci_.node.decorator_list)
+
+        def resolve(t):
+            # defaults of frozen records written out
+            if isinstance(t, tuple) and t[:1] == ('new',) and len(t) > 3:
+                return ('new', t[1], tuple((n_, resolve(self._field_default(v_[1], v_[2], None) or v_)
+                                            if isinstance(v_, tuple) and v_[:1] == ('default',) and len(v_) == 3 else resolve(v_))
+                                           for n_, v_ in t[2]), t[3])
+            if isinstance(t, tuple) and t[:1] == ('tuple',):
+                return ('tuple',) + tuple(resolve(x) for x in t[1:])
+            return t
+
         def immutable(t):
             if is_const(t):
                 return isinstance(t[1], (str, int, float, bool, type(None), bytes))
             if isinstance(t, tuple) and t[:1] == ('tuple',):
                 return all(immutable(x) for x in t[1:])
+            if isinstance(t, tuple) and t[:1] == ('ref',) and len(t) == 3 and t[1] in ('fn', 'fnraw', 'builtin', 'ext', 'cls', 'enum'):
+                return True             # functions and classes: nothing a later call could change
+            if isinstance(t, tuple) and t[:1] == ('new',) and len(t) > 3 and frozen_record(t[1]):
+                return all(immutable(v_) for _, v_ in t[2])
             return False
         res = None
+        if fv is not None:
+            fv = resolve(fv)
         if fv is not None and immutable(fv):
             res = fv
         elif isinstance(fv, tuple) and fv[:1] == ('set',) and all(immutable(x) for x in fv[1:]) and isinstance(node0, ast.Call) \
@@ -1643,9 +1756,29 @@ class SymExec:
             if r[0] != 'unbound':
                 return self.ref(r)
             return ('attr', b, name)
+        if isinstance(b, tuple) and b[:2] == ('ref', 'modvar') and len(b) == 3:
+            rec_ = self._import_time_const(b[2])
+            if isinstance(rec_, tuple) and rec_[:1] == ('new',):
+                for fn_, fv in rec_[2]:
+                    if fn_ == name:
+                        return fv           # a field of a frozen record made at import
+        hk_ = self._heap_key(b) if isinstance(b, tuple) else None
+        if hk_ is not None and name in self.heap.get(hk_, {}):
+            return self.heap[hk_][name]
         if isinstance(b, tuple) and b and b[0] == 'new':
             for fn_, fv in b[2]:
                 if fn_ == name:
+                    if hk_ is not None and isinstance(fv, tuple) and fv[:1] == ('default',) and len(fv) == 3:
+                        # a dataclass field left at its default: the default value, made once per object
+                        dv_ = self._field_default(fv[1], fv[2], fr)
+                        if dv_ is not None:
+                            self.heap.setdefault(hk_, {})[name] = dv_
+                            return dv_
+                    if hk_ is not None and isinstance(fv, tuple) and fv[:1] == ('list',) and not any(
+                            isinstance(x, tuple) and x[:1] == ('star',) for x in fv[1:]):
+                        lv_ = ListVal(list(fv[1:]), self.fresh())       # the list handed to the constructor, as an object
+                        self.heap.setdefault(hk_, {})[name] = lv_
+                        return lv_
                     return fv
         # class-level constant / table reached through an instance or through the class object
         if fr is not None and fb is not None:
@@ -2064,6 +2197,11 @@ class SymExec:
 
     def _compare(self, op, l, r, node):
         fl, fr_ = freeze(l), freeze(r)
+        if op in ('in', 'not in') and isinstance(r, DictVal) and is_const(fl) and all(
+                i[0] != 'dstar' and is_const(freeze(i[0])) for i in r.items):
+            # membership of a constant in a dict whose keys are all known constants
+            hit_ = any(freeze(i[0])[1] == fl[1] and type(freeze(i[0])[1]) == type(fl[1]) for i in r.items)
+            return ('const', hit_ == (op == 'in'))
         if is_const(fl) and is_const(fr_):
             a, b = fl[1], fr_[1]
             try:
@@ -2595,6 +2733,13 @@ class SymExec:
         v = exec_module_body(self.facts, m).get(var)
         if isinstance(v, Closure):
             return ('closure', v)
+        if isinstance(v, PartialVal) and not has_live(v.args) and not any(has_live(x) for _, x in v.kwargs):
+            return ('partial', v)                   # functools.partial(f, <constants>) made at import
+        fv_ = freeze(v) if not isinstance(v, (ListVal, DictVal, PartialVal)) else None
+        if isinstance(fv_, tuple) and fv_[:1] == ('call',) and len(fv_) >= 5 and fv_[2] in (
+                ('ref', 'ext', 'operator.methodcaller'), ('ref', 'ext', 'operator.itemgetter'), ('ref', 'ext', 'operator.attrgetter')) \
+                and fv_[3] and all(is_const(x) for x in fv_[3]) and not fv_[4]:
+            return ('opobj', fv_[2][2].split('.')[1], fv_[3])
         if isinstance(v, tuple) and v[:1] == ('new',) and v[1] in self.facts.classes:
             cq = self.facts.find_method(v[1], '__call__')
             if cq and cq in self.facts.functions:
@@ -2602,10 +2747,27 @@ class SymExec:
         return None
 
     def call(self, func, args, kwargs, node, fr: Frame):
+        if isinstance(func, tuple) and func[:1] == ('new',) and len(func) > 3 and func[1] in self.facts.classes and self.inline:
+            # an instance of a package class with __call__ (a frozen record made at import, or an object built on this path)
+            cq_ = self.facts.find_method(func[1], '__call__')
+            key_ = '%s@%s' % (cq_, func[3])
+            if cq_ and cq_ in self.facts.functions and key_ not in self.stack and len(self.stack) < MAX_INLINE:
+                return self._inline_call(cq_, [func] + list(args), kwargs, node, ('attr', freeze(func), '__call__'), stack_key=key_)
         mc = self._module_callable(freeze(func)) if not isinstance(func, (Closure, PartialVal)) else None
         if mc is not None and self.inline and len(self.stack) < MAX_INLINE:
-            if mc[0] == 'closure':
+            if mc[0] in ('closure', 'partial'):
                 return self.call(mc[1], args, kwargs, node, fr)
+            if mc[0] == 'opobj':
+                if mc[1] == 'methodcaller' and len(args) == 1 and not kwargs and isinstance(mc[2][0][1], str):
+                    # operator.methodcaller('name', *a)(obj) is obj.name(*a)
+                    return self.call(self.attr(args[0], mc[2][0][1], node, fr), list(mc[2][1:]), [], node, fr)
+                if mc[1] == 'itemgetter' and len(args) == 1 and not kwargs and len(mc[2]) == 1:
+                    return self.subscript(args[0], mc[2][0], node, fr)
+                if mc[1] == 'attrgetter' and len(args) == 1 and not kwargs and len(mc[2]) == 1 and isinstance(mc[2][0][1], str) \
+                        and '.' not in mc[2][0][1]:
+                    return self.attr(args[0], mc[2][0][1], node, fr)
+                mc = None
+        if mc is not None and self.inline and len(self.stack) < MAX_INLINE:
             key_ = mc[2] + '@' + freeze(func)[2]          # recursion is per callable object, not per class
             if key_ not in self.stack:
                 return self._inline_call(mc[2], [mc[1]] + list(args), kwargs, node, ('attr', freeze(func), '__call__'), stack_key=key_)
@@ -2757,6 +2919,17 @@ class SymExec:
                 and len(ff[3]) == 1 and len(args) == 1 and not kwargs:
             # TOKEN(regex)(f): f itself, carrying the regex PLY reads from it
             return ('tokenrule', ff[3][0], keep(args[0]))
+        if ff == ('ref', 'ext', 'collections.ChainMap') and not kwargs and not any(isinstance(a, tuple) and a[:1] == ('star',) for a in args):
+            # collections.ChainMap(m0, m1, ...): an object whose .maps is that list (first mapping = where writes go)
+            eid_ = self.fresh()
+            self.created.add(eid_)
+            maps_ = ListVal([keep(a) for a in args] if args else [DictVal([], self.fresh())], self.fresh())
+            self.heap.setdefault(eid_, {})['maps'] = maps_
+            return ('new', 'collections.ChainMap', (('maps', ('list',)),), eid_)
+        if ff == ('ref', 'ext', 'typing.cast') and len(args) == 2 and not kwargs:
+            return args[1]                      # typing.cast(T, x) is x
+        if ff in (('ref', 'ext', 'typing.assert_type'), ('ref', 'ext', 'typing.reveal_type')) and args and not kwargs:
+            return args[0]
         if ff == ('ref', 'ext', 'functools.reduce') and 2 <= len(args) <= 3 and not kwargs:
             # reduce(f, xs[, init]) over a known spine is the left fold, call by call
             a_ = args[1]
@@ -3039,6 +3212,7 @@ class SymExec:
     def _construct(self, qual, args, kwargs, node, fr, eid):
         """Constructor call of a package class: bind dataclass fields."""
         ci = self.facts.cls(qual)
+        self.created.add(eid)
         fields = self.facts.all_fields(qual, ctor=True)
         is_dc = any(self.facts.cls(q).is_dataclass for q in self.facts.mro(qual) if q in self.facts.classes)
         init = self.facts.find_method(qual, '__init__')
@@ -3297,6 +3471,20 @@ def _ex_Call(self: SymExec, e, fr):
                 exc = ('call', self.fresh(), ('ref', 'builtin', 'ValueError'), (), ())
                 self.emit('raise', e, exc=exc, implicit=True)
                 raise _Raise(exc, e)
+        func = self.attr(recv, e.func.attr, e.func, fr)
+        args = self._elts(e.args, fr)
+        return self.call(func, args, [], e, fr)
+    if isinstance(e.func, ast.Attribute) and e.func.attr == 'pop' and len(e.args) <= 1 and not e.keywords:
+        recv = self.ev(e.func.value, fr)
+        if isinstance(recv, ListVal) and recv.concrete() and recv.elts and self.heap is not None and any(
+                recv is v_ for d_ in self.heap.values() for v_ in d_.values()):
+            # pop on a list that is a field of an object built on this path (its spine is followed exactly)
+            args_ = self._elts(e.args, fr)
+            ix_ = freeze(args_[0]) if args_ else ('const', -1)
+            if is_const(ix_) and isinstance(ix_[1], int) and -len(recv.elts) <= ix_[1] < len(recv.elts):
+                self.emit('call', e, func=('attr', freeze(recv), 'pop'), args=tuple(freeze(a) for a in args_), kwargs=(), resolved=None,
+                          handlers=self._handlers(), result=freeze(recv.elts[ix_[1]]), inlined=False, on_fresh_list=True)
+                return recv.elts.pop(ix_[1])
         func = self.attr(recv, e.func.attr, e.func, fr)
         args = self._elts(e.args, fr)
         return self.call(func, args, [], e, fr)
